@@ -219,7 +219,7 @@ func insertAt(body *[]ref.Node, i int, n ref.Node) {
 func useNode(name string) ref.Node { return &ref.Print{E: &ref.DataRef{Name: name}} }
 
 var c07Kinds = []string{"undeclared-name", "use-after-block", "use-before-def", "self-reference", "loop-var-after-loop", "loop-var-in-ifempty", "loop-var-in-collection",
-	"unused-param", "unused-let", "let-named-ij", "undeclared-call-param", "missing-required-param", "unknown-callee", "both-param-styles", "alias-of-another-file", "let-named-like-callee-param"}
+	"unused-param", "unused-let", "let-named-ij", "undeclared-call-param", "missing-required-param", "unknown-callee", "both-param-styles", "alias-of-another-file", "let-named-like-callee-param", "loop-function-on-non-loop-variable"}
 
 // inject applies the site-th injection of the kind to the bundle in place; ok=false when there is no such site.
 func inject(b *ref.Bundle, kind string, site int) (ok bool, what string) {
@@ -292,6 +292,39 @@ func inject(b *ref.Bundle, kind string, site int) (ok bool, what string) {
 						f.Keyword = "foreach"
 					}
 					return true, kind + " $" + f.Var
+				}
+				k++
+			}
+		}
+		return false, ""
+	case "loop-function-on-non-loop-variable":
+		// index / isFirst / isLast read the state of a loop: applied to a param, to a let, or to a let that hides the loop
+		// variable, there is no such state (the renderer would look up a name nothing binds)
+		fn := []string{"index", "isFirst", "isLast"}[site%3]
+		k := 0
+		for _, f := range b.Files {
+			for _, t := range f.Templates {
+				if len(t.Params) == 0 {
+					continue
+				}
+				if k == site/3 {
+					body := &t.Body
+					insertAt(body, 0, &ref.Print{E: &ref.Tern{C: &ref.Call{Fn: fn, Args: []ref.Expr{&ref.DataRef{Name: t.Params[0].Name}}}, A: &ref.Lit{V: ref.Int(1)}, B: &ref.Lit{V: ref.Int(0)}}})
+					return true, fn + "() applied to the param $" + t.Params[0].Name
+				}
+				k++
+			}
+		}
+		for _, blk := range blocks {
+			for _, n := range *blk.body {
+				fe, isFor := n.(*ref.Foreach)
+				if !isFor {
+					continue
+				}
+				if k == site/3 {
+					fe.Body = append([]ref.Node{&ref.LetVal{Name: fe.Var, E: &ref.Lit{V: ref.Int(1)}}, useNode(fe.Var),
+						&ref.Print{E: &ref.Tern{C: &ref.Call{Fn: fn, Args: []ref.Expr{&ref.DataRef{Name: fe.Var}}}, A: &ref.Lit{V: ref.Int(1)}, B: &ref.Lit{V: ref.Int(0)}}}}, fe.Body...)
+					return true, fn + "() applied to a let that hides the loop variable $" + fe.Var
 				}
 				k++
 			}
